@@ -275,6 +275,10 @@ def violates(rp, obs):
     """Concrete evaluation of the clause on the native observation: membership of the concrete value in the
     must / may language decided by z3 on a constant string."""
     c = rp["native_case"]
+    if rp.get("obligation", "").startswith("bounded.enumerations_of_both_dictionaries"):
+        # replay of a finding of the dictionary part: the verdict of the real field object on the recorded value
+        want = "accept" if "accepts_listed" in rp["obligation"] else "reject"
+        return obs.get("verdict") not in (None, want)
     must, may = SPEC[c["ftype"]]
     v = SStr(z3.StringVal(c["value"]))
 
@@ -327,6 +331,16 @@ FALLBACK = Bounded(
     "newline / 320 digits, codes, dates and times in and out of layout) x 2 rounds in one interpreter",
     only_when_undecided=True, post=sweep_post)
 
+# the table that feeds validate_value: the enumerations of the fields of the two real dictionaries as the schema
+# objects carry them (SchemaField.values is filled by FIXSchema._parse_field, an XML walk outside the verifier's
+# subset) - bounded, not counted as proved; the deductive task `enumerated` takes the table as given
+DICTS = Bounded(
+    "enumerations_of_both_dictionaries_side_by_side", "c19_dicts", {}, {},
+    "every field of tests/FIX44.xml and tests/TT-FIX44.xml, both dictionaries loaded in one interpreter in both orders "
+    "(and the first one once more): each enumerator the XML lists is accepted, values listed only for the same-named "
+    "field of the other dictionary and three values listed nowhere are rejected with FIXMessageError, a field without "
+    "<value> children carries no enumeration; oracle: an independent reading of the XML")
+
 TYPES = ["INT", "LENGTH", "SEQNUM", "NUMINGROUP", "DAYOFMONTH", "FLOAT", "QTY", "PRICE", "PRICEOFFSET", "AMT", "PERCENTAGE",
          "BOOLEAN", "CHAR", "STRING", "MULTIPLESTRINGVALUE", "MULTIPLEVALUESTRING", "CURRENCY", "COUNTRY", "EXCHANGE",
          "UTCTIMESTAMP", "UTCDATEONLY", "LOCALMKTDATE", "UTCTIMEONLY", "MONTHYEAR", "DATA"]
@@ -342,7 +356,7 @@ TASKS = [Task(t, type_harness(t), lex_cfg, FUNCS, native="c19", timeout_ms=20000
 
 PROPERTY = Property(
     "C19", TASKS,
-    bounded=[FALLBACK],
+    bounded=[FALLBACK, DICTS],
     assumptions=[
         "A-INT / A-FLOAT / A-STRPTIME / A-RE: the languages CPython's int(), float(), datetime.strptime and re.search('\\\\W+') "
         "accept, as written in vfy/pyvc/strings.py (white space, sign, '_' separators, Unicode decimal digits, exponents, "
